@@ -369,6 +369,9 @@ func c10(ctx *Ctx) (*Outcome, error) {
 	for i := 0; i < 6; i++ {
 		cases = append(cases, selfRefTwinCase(i))
 	}
+	for i := 0; i < 6; i++ {
+		cases = append(cases, symlinkDirCase(i))
+	}
 	for i := 0; i < 8; i++ {
 		cases = append(cases, bothDefsKeywordsCase(i))
 	}
@@ -480,7 +483,7 @@ func c10(ctx *Ctx) (*Outcome, error) {
 
 // reC10Stratum: the hand-built reference layouts; each of them is generated and built by the unchanged tool, so a
 // refusal or unbuildable output is a reference form that stopped being transparent.
-var reC10Stratum = regexp.MustCompile(`^(file-cycle|same-stem|same-base-dir|self-ref-twin|cross-package|both-defs-keywords)/`)
+var reC10Stratum = regexp.MustCompile(`^(file-cycle|same-stem|same-base-dir|self-ref-twin|symlink-dir|cross-package|both-defs-keywords)/`)
 
 // sameBaseDirCase: schema files with the SAME base name in different directories, one referring to definitions of
 // the others by relative path while holding definitions of the same names itself; also a reference that spells out
@@ -570,6 +573,38 @@ func selfRefTwinCase(i int) *sem.Case {
 	for depth := 0; depth < 3; depth++ {
 		c.Docs = append(c.Docs, docgen.Doc{V: jsonx.Obj{{K: ka, V: chain("code", depth)}}, Class: "valid", Label: "v1-chain"}, docgen.Doc{V: jsonx.Obj{{K: kb, V: chain("sku", depth)}}, Class: "valid", Label: "v2-chain"},
 			docgen.Doc{V: jsonx.Obj{{K: ka, V: chain("code", depth)}, {K: kb, V: chain("sku", depth)}}, Class: "valid", Label: "both"})
+	}
+	return c
+}
+
+// symlinkDirCase: a referenced document reached through a symbolic link (a linked directory "current" -> ../versions/v2,
+// or a linked file) that itself refers to a sibling directory with "..": the reference is relative to where the
+// document really is. A decoy document of the same name sits where the link path would lead lexically.
+func symlinkDirCase(i int) *sem.Case {
+	money := &sg.Schema{Types: []string{"object"}, Props: []sg.Prop{{Name: "amount", S: &sg.Schema{Types: []string{"number"}}}, {Name: "currency", S: &sg.Schema{Types: []string{"string"}, MinLen: 3}}}, Required: []string{"amount", "currency"}}
+	decoy := &sg.Schema{Types: []string{"object"}, Props: []sg.Prop{{Name: "cents", S: &sg.Schema{Types: []string{"integer"}}}}, Required: []string{"cents"}}
+	order := &sg.Schema{Types: []string{"object"}, Props: []sg.Prop{{Name: "id", S: &sg.Schema{Types: []string{"integer"}}}, {Name: "total", S: &sg.Schema{Ref: "../common/money.json", Target: money}}}, Required: []string{"total"}}
+	root := &sg.Schema{Types: []string{"object"}, Props: []sg.Prop{{Name: "order", S: &sg.Schema{Ref: "current/order.json", Target: order}}}}
+	j := func(s *sg.Schema) []byte { return jsonx.MarshalIndent(s.ToJSON()) }
+	c := &sem.Case{Root: root, RootFile: "schemas/main.json", Sig: fmt.Sprintf("symlink-dir/%d", i%6), NoAuto: true,
+		Extra: []batch.File{{Path: "versions/v2/order.json", Data: j(order)}, {Path: "versions/common/money.json", Data: j(money)}}}
+	switch i % 3 {
+	case 0:
+		// linked directory, decoy where the lexical path leads
+		c.Extra = append(c.Extra, batch.File{Path: "schemas/current", Link: "../versions/v2"}, batch.File{Path: "schemas/common/money.json", Data: j(decoy)})
+	case 1:
+		// linked directory, nothing at the lexical location
+		c.Extra = append(c.Extra, batch.File{Path: "schemas/current", Link: "../versions/v2"})
+	case 2:
+		// the document itself is the link
+		c.Extra = append(c.Extra, batch.File{Path: "schemas/current/order.json", Link: "../../versions/v2/order.json"}, batch.File{Path: "schemas/common/money.json", Data: j(decoy)})
+	}
+	if (i/3)%2 == 1 {
+		c.Cwd = "schemas"
+	}
+	good := jsonx.Obj{{K: "amount", V: jsonx.Num("12.5")}, {K: "currency", V: "EUR"}}
+	for _, total := range []any{good, jsonx.Obj{{K: "cents", V: jsonx.N(1250)}}, jsonx.Obj{{K: "amount", V: jsonx.N(1)}}, jsonx.Obj{{K: "amount", V: jsonx.N(1)}, {K: "currency", V: "E"}}, jsonx.Obj{}} {
+		c.Docs = append(c.Docs, docgen.Doc{V: jsonx.Obj{{K: "order", V: jsonx.Obj{{K: "id", V: jsonx.N(1)}, {K: "total", V: total}}}}, Class: "deep", Label: "symlink-dir"})
 	}
 	return c
 }
